@@ -9,6 +9,7 @@
 package main
 
 import (
+	"strings"
 	"encoding/json"
 	"fmt"
 	"os"
@@ -29,8 +30,12 @@ import (
 	"verif/model"
 )
 
+// longX: ids longer than any fixed-size buffer that agree on their first 96 bytes ("q" is stored, "r" never;
+// node "c" is stored, "z" never): an index keyed by a truncated id answers for the wrong one.
+var longX = strings.Repeat("k", 96)
+
 var (
-	na, nb, nc, nz = model.N("/u", "a"), model.N("/u", "b"), model.N("/u", "c"), model.N("/u", "z")
+	na, nb, nc, nz = model.N("/u", "a"), model.N("/u", "b"), model.N("/u", longX+"c"), model.N("/u", longX+"z")
 	zonePlus2      = time.FixedZone("plus2", 2*3600)
 )
 
@@ -44,10 +49,10 @@ func universe(n int) []*triple.Triple {
 		model.T(na, model.PT("p", model.T2), model.ON(nb)),                         // 2 same id, other instant
 		model.T(nc, p, model.ON(nb)),                                               // 3 other subject
 		model.T(na, p, model.ON(nc)),                                               // 4 other object
-		model.T(na, model.PI("q"), model.ON(nb)),                                   // 5 other predicate id
+		model.T(na, model.PI(longX+"q"), model.ON(nb)),                                   // 5 other predicate id
 		model.T(na, p, model.OP(model.PT("p", model.T1))),                          // 6 predicate-valued object
 		model.T(nc, model.PT("p", model.T1), model.OL(model.L(literal.Text, "x"))), // 7 literal object
-		model.T(nb, model.PT("q", model.T1), model.ON(na)),                         // 8 node as subject here, object elsewhere
+		model.T(nb, model.PT(longX+"q", model.T1), model.ON(na)),                         // 8 node as subject here, object elsewhere
 		model.T(na, model.PT("p", model.T1), model.OP(p)),                          // 9 predicate-valued object of the other kind
 	}
 	return u[:n]
@@ -59,8 +64,8 @@ var (
 	argP = []*predicate.Predicate{
 		model.PI("p"), model.PT("p", model.T1), model.PT("p", model.T2),
 		model.PT("p", model.T3),                // anchor never stored
-		model.PI("q"), model.PT("q", model.T1), // q@T1 stored only in the larger universe
-		model.PI("r"),                         // identifier never stored
+		model.PI(longX+"q"), model.PT(longX+"q", model.T1), // q@T1 stored only in the larger universe
+		model.PI(longX+"r"),                         // identifier never stored
 		model.PT("p", model.T1.In(zonePlus2)), // same instant as p@T1, written in another zone
 	}
 	argO = []*triple.Object{
